@@ -292,6 +292,7 @@ func init() {
 		Level: "exploration",
 		Rule: "every pair of strings up to a length bound over 2-3 letter alphabets x random integer matrices (symmetric and asymmetric, m[x,Gap] != m[Gap,x], gap-open in {0,-1,-3,-7}; Local only with non-positive gap scores, Global with any sign), " +
 			"plus random related pairs up to length 300 over the protein alphabet with every shipped matrix and Levenshtein over random bytes; each result is re-scored by an independent walker; " +
+			"readers unit: the calls run while reader goroutines read the protected memory, -race build reports any write to it (also one undone before returning); " +
 			"non-trivial = pair with both sequences non-empty; distinct by construction in the exhaustive scope, by hash of (a,b,matrix) otherwise",
 		Assumptions: []string{"byte 255 never occurs in sequences", "matrix entries are integers or dyadic fractions so that every summation order gives the same float",
 			"Local is exercised only with non-positive gap scores and gap-open; when Local returns no steps its offsets are unspecified and not checked"},
@@ -302,6 +303,7 @@ func init() {
 			{Name: "random", QShards: 2, TShards: 8, Run: c08Random},
 			{Name: "shipped", TShards: 4, Run: c08Shipped},
 			{Name: "reuse", TShards: 4, Run: func(c *Ctx) { alignReuse(c, alignOpts{validity: true}, 0) }},
+			{Name: "readers", Race: true, QShards: 2, TShards: 4, Run: c08Readers},
 		},
 	})
 	register(&Property{
@@ -342,7 +344,10 @@ func init() {
 
 // scorescales: integer scores far beyond 2^24 and tiny dyadic scores; all sums
 // stay exact in float64 (|sum| < 2^53 units), so the oracles remain exact.
-var scoreScales = []float64{0, 0, 0, 0, 1000, 1e6, 3e9, 1.0 / (1 << 20), 1 << 30}
+// Powers of two far from 1 (2^-40 is below any "epsilon" a comparison might
+// use, 2^-300 / 2^300 are near the ends of the exponent range) scale every
+// score exactly, so the optimum scales with them.
+var scoreScales = []float64{0, 0, 0, 0, 1000, 1e6, 3e9, 1.0 / (1 << 20), 1 << 30, 1.0 / (1 << 40), 1.0 / (1 << 40), 0x1p-300, 0x1p300}
 
 func c08Gen(r *rand.Rand, mi int, alpha []byte) (align.SubstitutionMatrix, bool) {
 	local := mi%2 == 0
